@@ -151,6 +151,49 @@ func (w *World) resolveType(s string, pkg *types.Package) types.Type {
 	if s == "any" || s == "interface{}" {
 		return types.NewInterfaceType(nil, nil)
 	}
+	if strings.HasSuffix(s, "]") {
+		// an instantiation Name[Args]: the generic type itself (names of heap families ignore type arguments)
+		if i := strings.Index(s, "["); i > 0 {
+			gen := w.resolveType(s[:i], pkg)
+			nt, ok := gen.(*types.Named)
+			if !ok || nt.TypeParams().Len() == 0 {
+				return gen
+			}
+			// instantiate when every argument resolves to a concrete type (Name[V] with V unknown stays generic)
+			var targs []types.Type
+			depth, start := 0, i+1
+			inner := s[i+1 : len(s)-1]
+			_ = inner
+			for j := i + 1; j < len(s); j++ {
+				switch s[j] {
+				case '[', '(':
+					depth++
+				case ']', ')':
+					if depth == 0 {
+						if a := w.resolveType(s[start:j], pkg); a != nil {
+							targs = append(targs, a)
+						}
+						j = len(s)
+						continue
+					}
+					depth--
+				case ',':
+					if depth == 0 {
+						if a := w.resolveType(s[start:j], pkg); a != nil {
+							targs = append(targs, a)
+						}
+						start = j + 1
+					}
+				}
+			}
+			if len(targs) == nt.TypeParams().Len() {
+				if inst, err := types.Instantiate(nil, nt, targs, false); err == nil {
+					return inst
+				}
+			}
+			return gen
+		}
+	}
 	if o := types.Universe.Lookup(s); o != nil {
 		if tn, ok := o.(*types.TypeName); ok {
 			return tn.Type()
